@@ -6,7 +6,8 @@ with a network of each class as first argument) is called on networks of the thr
 arguments; the argument network is compared before/after with a deep snapshot (node order, edge order, members,
 memberships, iteration order of the member/membership sets, three attribute levels incl. dict key order, frozen flag,
 next automatic edge ID), and nothing mutable reachable from the return value may be one of the network's own
-STRUCTURAL containers (id() walk + in-place mutation of the result).  Sharing of attribute dicts is an observation.
+STRUCTURAL containers (id() walk + in-place mutation of the result).  Sharing of attribute dicts is an observation, unless
+a returned network keeps the argument's attribute dict as its own (violation), or the result is the argument itself.
 The Lean part (Props/C08.lean) proves that the snapshot determines every observer of the model and checks the
 regenerated API table; the model's observers are tied to the real views through the C08 driver.  No theorem says
 "function f does not mutate": that is decided by the run below.
@@ -49,6 +50,7 @@ ATTR_DICT_PATH = re.compile(r"^ret\._(?:node|edge)_attr\[[^\[\]]*\]$|^ret\._net_
 # dict: every public attribute setter of the result (`R["k"] = v`, R.set_node_attributes, add_node(n, **attr)) then rewrites
 # the "unchanged" input.  Such a result is a VIOLATION (`returned-network-shares-net-attrs`, `returned-network-shares-attrs`);
 # no function of the pinned tree does it (each rebuilds the dicts through add_nodes_from / add_edges_from / deepcopy).
+ALIAS_PREFIXES = ("alias-", "returned-network-shares-", "returns-its-argument")   # what the RESULT shares (vs. what the call changed)
 RESULT_NET_ATTR = re.compile(r"\._(?:node|edge)_attr\[[^\[\]]*\]$|\._net_attr$")
 
 # Targets for which NO call can complete on any network, because xgi itself raises for every input (documented here so
@@ -544,13 +546,31 @@ def check_call(ctx, t, subj, args, kwargs, env, record=True):
             by_site[t.vsite] = by_site.get(t.vsite, 0) + 1
         ctx.stats["alias:live-views-returned"] += len(live)
         same_object = ret is net
-        touched = L.scribble(conts, subj.nested)
+        seen = set()
+        if same_object:
+            # a function that is not in-place and hands back ITS ARGUMENT (a dropped `.copy()`: `_H = H` in cut_to_order): the
+            # "new network" is the input, every later edit of the result edits the input.  Reported as such; nothing is
+            # scribbled (writing sentinels into the result would be writing them into the network under test).
+            viol.append(("returns-its-argument", f"{t.site}(args={args}, kwargs={kwargs}) on {subj.spec['label']} returned the very "
+                                                 f"network object it was given (not a new network)"))
+            conts, shared, touched = {}, [], 0
+            subj.rebuild()
+        else:
+            touched = L.scribble(conts, subj.nested)
         if isinstance(ret, L.NETS) and not same_object and not ret.is_frozen:
             L.mutate_network(ret)
             touched += 1
         # nothing reachable from the result was written to (scalars, strings, live views): the argument cannot have changed
-        d2 = L.diff(subj.before, L.snapshot(net, public_uid=isinstance(ret, L.NETS))) if touched else []
-        seen = set()
+        try:
+            d2 = L.diff(subj.before, L.snapshot(net, public_uid=isinstance(ret, L.NETS))) if touched else []
+        except Exception as ex:  # noqa
+            # the argument cannot even be read any more after the RESULT was written to: they share structure
+            d2 = []
+            seen.add("alias-internal-container")
+            viol.append(("alias-internal-container", f"{t.site}(args={args}, kwargs={kwargs}) on {subj.spec['label']}: after mutating the "
+                                                     f"returned object in place the argument can no longer be read "
+                                                     f"({type(ex).__name__}: {str(ex)[:80]}); shared: {shared[:3]}"))
+            subj.rebuild()
         for cls, detail in d2:
             ac = alias_class(cls, detail)
             seen.add(ac)
@@ -571,11 +591,11 @@ def check_call(ctx, t, subj, args, kwargs, env, record=True):
     # and a change of the argument is still a violation, but what the RESULT shares with such an argument is only recorded
     outside = bool(t.doc_classes) and not any(isinstance(net, getattr(xgi, c)) for c in t.doc_classes if hasattr(xgi, c))
     if outside:
-        for cls, detail in [v for v in viol if v[0].startswith("alias-") and v[0] not in OBSERVATION_CLASSES]:
+        for cls, detail in [v for v in viol if v[0].startswith(ALIAS_PREFIXES) and v[0] not in OBSERVATION_CLASSES]:
             ctx.stats["observation:" + cls + "(input class outside the documented domain)"] += 1
             ctx.extra.setdefault("aliasing_observations", {}).setdefault(
                 f"{t.vsite} [{cls}; {type(net).__name__} given where the documentation says {sorted(t.doc_classes)}]", detail[:300])
-        viol = [v for v in viol if not (v[0].startswith("alias-") and v[0] not in OBSERVATION_CLASSES)]
+        viol = [v for v in viol if not (v[0].startswith(ALIAS_PREFIXES) and v[0] not in OBSERVATION_CLASSES)]
     if record:
         ctx.evaluations += 1
         for cls, detail in viol:
@@ -1011,6 +1031,7 @@ def run(ctx, only_case=None):
                                        "targets": []})["targets"].append(t)
         rot = Rotation()
         spent = collections.Counter()
+        tried_cls = collections.Counter()              # (site, network class) -> networks of that class the target was tried on
         budget_end = t_calls + ctx.n(36, 780)
 
         def note(t, sp, args, kwargs, okc, exc):
@@ -1043,9 +1064,16 @@ def run(ctx, only_case=None):
                     t.probed.add(sp["cls"])
                 if t.heavy and not thorough and si >= 5:
                     continue
-                if time.time() > budget_end and status[t.site]["ok_nonempty"] > 0:
+                # out of budget: a target is skipped once it has completed on a network WITH edges and, for each network class,
+                # has completed on that class (or was tried on two networks of it) - the branches of the converters and of the
+                # class-generic functions (to_hypergraph(DiHypergraph), to_simplicial_complex(Hypergraph), subhypergraph(SC) ...)
+                # are taken by the class of the argument, and must not depend on how loaded the machine is
+                late = time.time() > budget_end
+                if late and status[t.site]["ok_nonempty"] > 0 and \
+                        (sp["cls"] in status[t.site]["classes"] or tried_cls[(t.site, sp["cls"])] >= 2 or t.heavy or sp["frozen"]):
                     ctx.stats["skipped-for-time"] += 1
                     continue
+                tried_cls[(t.site, sp["cls"])] += 1
                 if spent[t.site] > ctx.n(2.5, 60) and status[t.site]["ok_nonempty"] > 0:
                     ctx.stats["skipped-slow-target"] += 1      # one slow callable must not eat the budget of the others
                     continue
@@ -1055,6 +1083,9 @@ def run(ctx, only_case=None):
                     else:
                         calls = plan_calls(t, subj.net, rot, ctx.rng, (2 if full else 1) if not thorough else 3, env,
                                            max_opt=(4 if t.heavy else None) if full else 2, combos=1 if not thorough else 3, allfirst=full)
+                        if late and status[t.site]["ok_nonempty"] > 0:
+                            calls = calls[:3]          # first visit of this class after the budget: defaults + two variations
+                            ctx.stats["calls:class-coverage-after-budget"] += len(calls)
                 except Exception as ex:  # noqa
                     status[t.site]["exc"][f"plan: {type(ex).__name__}: {ex}"[:120]] += 1
                     continue
@@ -1172,8 +1203,10 @@ def run(ctx, only_case=None):
         "NEVER_COMPLETES of callables that raise inside xgi for every input",
         "aliasing: a result sharing one of the argument's STRUCTURAL containers (member/membership sets, node/edge tables, attribute "
         "tables, counter) is a violation; sharing of ATTRIBUTE dicts (alias-attrs, alias-net-attrs: H.nodes[n], attrs statistics, "
-        "to_hif_dict, to_hypergraph_dict) is an observation; sharing of caller-supplied nested attribute values (what a shallow dict "
-        "copy does) is only counted (alias:shared-user-attribute-values)",
+        "to_hif_dict, to_hypergraph_dict) is an observation - except when a RETURNED NETWORK keeps such a dict as its own attribute "
+        "dict (returned-network-shares-net-attrs / -attrs) or the result is the argument itself (returns-its-argument): violations; "
+        "sharing of caller-supplied nested attribute values (what a shallow dict copy does) is only counted "
+        "(alias:shared-user-attribute-values, per site in results_sharing_caller_supplied_nested_values)",
         "live views / stat objects returned by the API reference their network by design and are not entered by the walk; matplotlib artists "
         "and scipy sparse matrices are leaves of the walk",
         "iteration order of member/membership sets is compared as the order a loop over the stored set sees (component "
